@@ -118,8 +118,8 @@ Print Assumptions C06_abmd_ratchet.
 (* histogramRestraint on M scalar values xs (grid points xi_g = lower + (g + 1/2) width, reference histogram refp):
    the energy is 1/2 (k M) sum_g (h(xi_g) - h0_g)^2 with h(xi) = 1/(M sqrt(2 pi sigma^2)) sum_i exp(-(xi - x_i)^2/(2 sigma^2))
    (hist_h), and the force on each value is MINUS THE DERIVATIVE of that energy with respect to that value.
-   NOTE the factor: the documented potential is 1/2 k INTEGRAL (h - h0)^2 dxi ~ 1/2 k width sum_g (...)^2; the code (and
-   hence this closed form) has k M in place of k width (recorded finding potential:histogram:energy-scale). *)
+   NOTE the factor k M: the manual used to give 1/2 k INTEGRAL (h - h0)^2 dxi ~ 1/2 k width sum_g (...)^2; its equation was
+   corrected to this sum (fix commit, finding potential:histogram:energy-scale). *)
 Theorem C06_histogram_restraint : forall (k sigma lower width : R) (refp pre post : list R) (x : R), (0 < sigma)%R ->
   let xs := pre ++ x :: post in
   hist_energy Rops k PI sigma lower width refp xs =
@@ -321,6 +321,15 @@ Theorem C06_ti_estimator_lagged_system_force : forall (c : @ticfg R) (p i : @tii
   ti_here Rops c (Some p) (TStep i) = if bin_ok c (bin_of Rops c (in_x p)) then [(bin_of Rops c (in_x p), sys)] else [].
 Proof. exact ti_lagged_sample_is_system_force. Qed.
 Print Assumptions C06_ti_estimator_lagged_system_force.
+
+(* energy_difference (replica exchange entry point colvarmodule::energy_difference) of a harmonic restraint with fixed
+   parameters: the alternative energy minus the current one, both in closed form (rediff never touches the state) *)
+Theorem C06_energy_difference : forall (c : @rcfg R) (s : @rstate R) (v : @var R) (x ce k' ce' : R),
+  c_kind c = Harmonic -> c_vars c = [v] -> s_centers s = [ce] -> (v_width v <> 0)%R -> v_periodic v = false ->
+  rediff Rops c s [x] (Some k') (Some [ce']) =
+  (k' / (2 * v_width v ^ 2) * (x - ce') ^ 2 - s_k s / (2 * v_width v ^ 2) * (x - ce) ^ 2)%R.
+Proof. exact rediff_harmonic_closed. Qed.
+Print Assumptions C06_energy_difference.
 
 (* ---- non-vacuity and regression examples (rational carrier, vm_compute) ------------------------- *)
 (* a 3-stage lambda schedule run in one segment reaches the last stage with the last force constant *)
